@@ -34,6 +34,8 @@ fn err_json(e: &CompileError, render: bool) -> Value {
         "ln": ln, "col": col, "ln_end": ln_end, "col_end": col_end,
         "msg": e.core.main_message.chars().take(300).collect::<String>(),
         "caused_by": e.caused_by.chars().take(80).collect::<String>(),
+        "hints": e.core.sub_messages.iter().flat_map(|s| s.get_msg().iter().cloned().chain(s.get_hint().map(String::from)))
+            .collect::<Vec<String>>().join(" | ").chars().take(300).collect::<String>(),
     });
     if render {
         // formatting the diagnostic (with its source excerpt and caret line) must not crash
